@@ -362,6 +362,19 @@ class FnBounds:
                     v = A.value(tuple(t.ops[0]))
                     out.append(v.add(Lin.const(-min(vals))))
                     out.append(v.scale(-1).add(Lin.const(max(vals))))
+                elif not vals and reach(t.get("default"), block, d) and f.dominates_block(t.get("default"), block):
+                    # only the default arm leads here: the value is none of the cases; a lower bound known in front of the switch moves past them
+                    v = A.value(tuple(t.ops[0]))
+                    cases = {int(cv) for cv, _dst in t.get("cases")}
+                    lo = None
+                    for g in self._ineqs_from(ir.conditions_at(f, d)):
+                        k = g.add(v, -1).constant()
+                        if k is not None:
+                            lo = -k if lo is None else max(lo, -k)
+                    if lo is not None and lo in cases:
+                        while lo in cases:
+                            lo += 1
+                        out.append(v.add(Lin.const(-lo)))
             d = f.blocks[d].idom
         cache[block] = out
         return out
@@ -507,15 +520,27 @@ class FnBounds:
             for h in facts[i + 1:]:
                 if self._trivially_nonneg(R.add(g, -1).add(h, -1)):
                     return True
-        if len(lams) > 4:
-            big = [l_ for l_ in lams if l_ > 4]
-            for i, g in enumerate(facts):
+        # one fact scaled by a coefficient that occurs in R (an element size: index < count, scaled by 4) plus one plain fact (4*count <= length)
+        mult = [l_ for l_ in lams if l_ > 1]
+        for i, g in enumerate(facts):
+            for lg in mult:
+                Rg = R.add(g, -lg)
                 for j, h in enumerate(facts):
-                    if i == j:
-                        continue
-                    for lg in big:
-                        if self._trivially_nonneg(R.add(g, -lg).add(h, -1)):
-                            return True
+                    if i != j and self._trivially_nonneg(Rg.add(h, -1)):
+                        return True
+        # ... plus two plain facts (block index < block count scaled by the block size, count*size <= length, byte index < size)
+        if len(facts) <= 60:
+            for i, g in enumerate(facts):
+                for lg in mult:
+                    Rg = R.add(g, -lg)
+                    neg = {s_ for s_, c_ in Rg.items() if c_ < 0}
+                    for j, h in enumerate(facts):
+                        if i == j or not any(h.get(s_, 0) < 0 for s_ in neg):
+                            continue        # h must cancel something negative
+                        Rh = Rg.add(h, -1)
+                        for k_, h2 in enumerate(facts):
+                            if k_ > j and k_ != i and self._trivially_nonneg(Rh.add(h2, -1)):
+                                return True
         return None
 
     def _apply_substs(self, lin):
@@ -568,7 +593,7 @@ class FnBounds:
             for s_ in lin.syms():
                 if s_[0] == "i":
                     P = f.insts[s_[1]]
-                    if P.op == "phi" and not (P.get("scev") or {}).get("k") == "rec" and f.loop_of(P.b) is None:
+                    if P.op == "phi" and not (P.get("scev") or {}).get("k") == "rec" and (f.loop_of(P.b) is None or self._head_splittable(P.b)):
                         target = P.b
                         break
             if target is not None:
@@ -578,9 +603,13 @@ class FnBounds:
         out = []
         phis = [f.insts[i] for i in f.blocks[target].insts if f.insts[i].op == "phi"]
         preds = [decided[target]] if target in decided else list(f.blocks[target].preds)
+        L_t = f.loop_of(target)
         for pb in preds:
             extra = []
-            if target not in decided:
+            if target not in decided and L_t is not None and pb in L_t["blocks"]:
+                # coming round the loop: the conditions on this edge speak about the previous visit's values - only the substitution is used
+                extra.append(("subst", target, pb))
+            elif target not in decided:
                 for e in A.facts_on_edge(pb, target):
                     extra += [e, e.scale(-1)]
                 extra += self._ineqs_from(ir.conditions_on_edge(f, pb, target))
@@ -602,6 +631,31 @@ class FnBounds:
             for (f2, ex2) in self.split_forms(newforms, depth + 1, d2):
                 out.append((f2, extra + ex2))
         return out
+
+    def _head_splittable(self, hb):
+        """a loop head whose merge values (other than affine recurrences) are loop-invariant on the back edges (a pointer that is `first` on entry
+        and `other` afterwards): the last visit came either from outside or round the loop, and in both cases the incoming values say what
+        the phis hold - no value of a previous visit is involved"""
+        f, A = self.f, self.A
+        L = f.loop_of(hb)
+        if L is None:
+            return False
+        own = set()
+        for iid in f.blocks[hb].insts:
+            P = f.insts[iid]
+            if P.op != "phi":
+                break
+            own.add(("i", P.id))
+        for t in own:
+            P = f.inst(t)
+            if (P.get("scev") or {}).get("k") == "rec":
+                continue
+            for inc, pb in P.get("inc"):
+                if pb in L["blocks"]:
+                    v = A.value(tuple(inc))
+                    if any(u in own or (isinstance(u, tuple) and u[0] == "k" and u[1] == hb) for u in v):
+                        return False
+        return True
 
     def _ineqs_from(self, conds):
         save = None
